@@ -77,6 +77,14 @@ def stamp_set(name, key):
     open(os.path.join(CACHE, name + '.stamp'), 'w').write(key)
 
 
+def install_if_changed(src, dst):
+    """copy a regenerated file over the one the Coq build sees only when its content changed, so that
+    unchanged generated parts do not trigger a rebuild of the proofs that depend on them"""
+    new = open(src).read()
+    if not os.path.exists(dst) or open(dst).read() != new:
+        open(dst, 'w').write(new)
+
+
 # ------------------------------------------------------------------------------ regeneration
 def regenerate(log):
     """probe + kt -> coq/Gen/*.v ; returns dict(status) ; failures are recorded, not raised"""
@@ -98,14 +106,19 @@ def regenerate(log):
                 st['probe'] = f'run failed rc={rc}: ' + out[-1000:]
             else:
                 open(os.path.join(CACHE, 'probe.json'), 'w').write(out)
-                rc, out2, dt = sh([sys.executable, os.path.join(VERIF, 'tools/gen_params.py'), os.path.join(CACHE, 'probe.json'),
-                                   os.path.join(COQ, 'Gen/Params_gen.v')])
+                tmpv = os.path.join(CACHE, 'Params_gen.v')
+                rc, out2, dt = sh([sys.executable, os.path.join(VERIF, 'tools/gen_params.py'), os.path.join(CACHE, 'probe.json'), tmpv])
                 if rc != 0:
                     st['probe'] = 'gen_params failed: ' + out2[-1500:]
-        rc, out, dt = sh([sys.executable, os.path.join(VERIF, 'tools/kt.py'), REPO, os.path.join(COQ, 'Gen/Kernels_gen.v')], timeout=300)
+                else:
+                    install_if_changed(tmpv, os.path.join(COQ, 'Gen/Params_gen.v'))
+        tmpk = os.path.join(CACHE, 'Kernels_gen.v')
+        rc, out, dt = sh([sys.executable, os.path.join(VERIF, 'tools/kt.py'), REPO, tmpk], timeout=300)
         log.append(f'[regen] kt rc={rc} {dt:.1f}s')
+        if os.path.exists(tmpk):
+            install_if_changed(tmpk, os.path.join(COQ, 'Gen/Kernels_gen.v'))
         try:
-            st['kt'] = json.load(open(os.path.join(COQ, 'Gen/Kernels_gen.v.status.json')))
+            st['kt'] = json.load(open(tmpk + '.status.json'))
         except Exception:
             st['kt'] = {'_': 'kt crashed: ' + out[-1500:]}
         json.dump(st, open(st_path, 'w'), indent=1)
